@@ -117,8 +117,25 @@ class Spec:
         self.raw = {r["name"]: r for r in case["raws"]}
         self.der = {f["name"]: dict(f) for f in case.get("derived", [])}
         self.const = dict(case.get("consts", {}))
+        self.tail = {r["name"]: list(r.get("tail", [])) for r in case["raws"]}
         self.data = {r["name"]: list(r["vals"]) for r in case["raws"]}
         self.ptr = {r["name"]: self.foff for r in case["raws"]}
+
+    def put(self, f, at, vals):
+        """gd_putdata of vals at absolute sample `at` of RAW field f (in-place encoding): a hole is zero filled;
+        bytes of a partial trailing sample that end up inside a sample become part of it"""
+        a = self.data[f]; j = at - self.foff
+        if j < 0: return False
+        t = self.raw[f]["type"]; size = SIZE[t]
+        if j > len(a):
+            first = 0
+            if self.tail[f]:
+                bs = bytes(self.tail[f]) + bytes(size - len(self.tail[f]))
+                first = struct.unpack("<" + FMT[t], bs)[0]
+            a.extend([first] + [0] * (j - len(a) - 1)); self.tail[f] = []
+        if j + len(vals) > len(a): self.tail[f] = []
+        a[j:j + len(vals)] = vals
+        return True
 
     def val(self, f, k):
         if f in self.raw:
@@ -297,7 +314,8 @@ def run_impl(exe, d, case, rw=False, timeout=20):
 def in_model(case, strict=True):
     if case["enc"] not in MODEL_ENC: return False
     if any(f["kind"] not in "PLBM" for f in case.get("derived", [])): return False
-    if any(o[0] in "pkxaC" for o in case["ops"]): return False
+    if any(o[0] in "kxaC" for o in case["ops"]): return False
+    if any(o[0] == "p" for o in case["ops"]) and case["enc"] != "none": return False     # writes: in-place encoding only
     if any(f.get("mc") or f.get("bc") for f in case.get("derived", [])): return False
     # under an open limit _GD_InitRawIO may close and reopen the very file being used in the
     # middle of a call (LRU by time(NULL)); that resets codec state the model would keep, so such
@@ -331,6 +349,10 @@ def model_line(case, cfg, eager, auto_events=None):
         elif k == "t": calls.append("t,%d" % idx[o[1]])
         elif k in "cf": calls.append("c,%s" % ("*" if o[1] == "*" else idx[o[1]]))
         elif k == "r": calls.append("r")
+        elif k == "p":
+            r = [x for x in case["raws"] if x["name"] == o[1]][0]
+            bs = b"".join(struct.pack("<" + FMT[r["type"]], v) for v in o[5][:o[3]])
+            calls.append("w,%d,%d,%s" % (idx[o[1]], o[2], bs.hex()))
         else: continue
         opmap.append(i)
         for r in (auto_events or {}).get(i, []):
@@ -471,9 +493,7 @@ def gen_case(rng, encs=None, model_only=False):
 
     def gen_put(rf, at, vals):
         ops.append(("p", rf, at, len(vals), "i64", vals))
-        a = sp.data[rf]; j = at - sp.foff
-        if j > len(a): a.extend([0] * (j - len(a)))
-        a[j:j + len(vals)] = vals
+        sp.put(rf, at, vals)
 
     def pick_type(f, st, n):
         """a return type in which every input and result of this read is exactly representable; changes
@@ -520,6 +540,13 @@ def gen_case(rng, encs=None, model_only=False):
         u = rng.random()
         if derived and not model_only and rng.random() < 0.06:
             gen_alter(); continue
+        if enc == "none" and not mplex and rng.random() < 0.05:
+            # gd_putdata between reads (in-place encoding; also inside the Coq model: coq/C02/Writes.v)
+            rr = rng.choice(raws); t = rr["type"]
+            lo, hi = (0, 255) if t == "UINT8" else (-128, 127) if t == "INT8" else (-400, 400) if t[0] == "I" else (0, 800)
+            gen_put(rr["name"], rng.randint(FO, FO + len(sp.data[rr["name"]]) + 3) if rng.random() < 0.9 else max(0, FO - 1),
+                    [rng.randint(lo, hi) for _ in range(rng.randint(1, 6))])
+            last_read.clear(); continue
         if last_read and rng.random() < 0.15:
             # continue an earlier read of some field where it ended, in another return type
             # (a differently split window must give the same samples)
@@ -654,12 +681,7 @@ def judge_spec(case, res):
             # gd_putdata on a RAW field of an in-place encoding: reads reflect exactly that change
             f, st, n, vals = o[1], o[2], o[3], o[5]
             fp = {}
-            if st < sp.foff: exp = "E %d" % E_RANGE
-            else:
-                a = sp.data[f]; j = st - sp.foff
-                if j > len(a): a.extend([0] * (j - len(a)))
-                a[j:j + n] = vals[:n]
-                exp = "W %d" % n
+            exp = "W %d" % n if sp.put(f, st, vals[:n]) else "E %d" % E_RANGE
             if exp != got: bad.append((i, exp, got))
         # an LRU auto-close during this call: documented to act like gd_raw_close
         if i > 0 and any(res[i - 1][1].get(r) == "1" and opn.get(r) == "0" for r in sp.raw): fp = {}
@@ -698,6 +720,7 @@ def compare_model(case, res, mout, opmap):
         m0 = m.split(" #")[0].strip()
         if m0 in ("UB", "X"): return None
         o = case["ops"][i]
+        if o[0] == "p": sp.put(o[1], o[2], o[5][:o[3]])
         if o[0] == "g" and o[2] != "H" and o[2] >= 0 and not sp.ok_type(o[1], o[2], o[3], o[4]):
             continue       # the model has no types: a read whose values the return type cannot hold is not compared
         got = impl_canon(res[i][0])
@@ -724,10 +747,7 @@ def mplex_line(case):
                 evs.append("g,%d,%d,%d" % (rt, o[2], o[3])); idx.append(i if o[1] == "mx" else None)
         elif o[0] == "p":
             which = 0 if o[1] == g["in"] else 1 if o[1] == g["cnt"] else None
-            a = sp.data[o[1]]; j = o[2] - FO
-            if j < 0: continue
-            if j > len(a): a.extend([0] * (j - len(a)))
-            a[j:j + o[3]] = o[5][:o[3]]
+            if not sp.put(o[1], o[2], o[5][:o[3]]): continue
             if which is not None:
                 evs.append("p,%d,%d,%s" % (which, o[2], ":".join(str(v) for v in o[5][:o[3]]))); idx.append(None)
     if not evs: return None
